@@ -181,16 +181,21 @@ def oracle_C02(spec, tr):
 def run_segments(spec, tr):
     """for every run op: (dt_si, first new instant index, end index, n planned, clean-predecessor flag)"""
     segs = []
-    dirty = True      # True when the state was changed by the user since the last recorded instant
+    dirty = True      # True when the user changed anything (state, duty cycle, solver) since the last recorded instant
+    dirty_state = True    # True when the user changed the kinematic state (initial conditions, reset)
     for op, rec in zip(spec['ops'], tr['ops']):
         if op['op'] == 'run':
             dt = float(F(op['dt'][0]) * SI['TimeInterval'][op['dt'][1]])
             T = float(F(op['T'][0]) * SI['TimeInterval'][op['T'][1]])
             segs.append({'dt': dt, 'T': T, 'a': rec['n_before'], 'b': rec.get('n_after', rec['n_before']),
-                         'fresh': rec['n_before'] == 0, 'dirty': dirty, 'op': op, 'pwm_before': rec['pwm_before'],
-                         'locked_before': rec['locked_before']})
+                         'fresh': rec['n_before'] == 0, 'dirty': dirty, 'dirty_state': dirty_state, 'op': op,
+                         'pwm_before': rec['pwm_before'], 'locked_before': rec['locked_before']})
             dirty = False
-        elif op['op'] in ('init', 'pwm', 'reset', 'new'):
+            dirty_state = False
+        elif op['op'] in ('init', 'reset'):
+            dirty = True
+            dirty_state = True
+        elif op['op'] in ('pwm', 'new'):
             dirty = True
     return segs
 
@@ -242,7 +247,7 @@ def oracle_C03(spec, tr):
     for sg in run_segments(spec, tr):
         a, b, dt = sg['a'], min(sg['b'], n), sg['dt']
         for j in range(max(a, 1), b):
-            if j == a and sg['dirty']:
+            if j == a and sg['dirty_state']:
                 continue
             v = last['angular speed'][j - 1] + last['angular acceleration'][j - 1] * dt
             wantp = last['angular position'][j - 1] + v * dt
@@ -254,7 +259,7 @@ def oracle_C03(spec, tr):
             if locked is not None and locked[j] and not locked[j - 1]:
                 # "clamped to zero only if self-locking engages at that instant": the hold begins only when the duty
                 # cycle in force is null or the (advanced, not yet clamped) motor speed opposes it
-                D = tr['els'][0]['pwm'][j - 1]
+                D = sg['pwm_before'] if j == a else tr['els'][0]['pwm'][j - 1]
                 wm = v
                 for r in reversed(tr['ratios']):
                     wm *= r
@@ -311,11 +316,12 @@ def oracle_C13(spec, tr):
     tol = 1e-9 * sv
     # duty cycle in force at instant j: the one recorded at j-1, or the attribute before the run
     before = {}
+    own0 = sim.owner_at(spec, tr)
     for sg in run_segments(spec, tr):
-        if sg['fresh']:
-            before[0] = sg['pwm_before']
+        if sg['a'] < n and own0[sg['a']] is not None and spec['ops'][own0[sg['a']]] is sg['op']:
+            before[sg['a']] = sg['pwm_before']
     for j in range(n):
-        D = E[0]['pwm'][j - 1] if j > 0 else before.get(0, 1.0)
+        D = before[j] if j in before else (E[0]['pwm'][j - 1] if j > 0 else 1.0)
         w = E[0]['angular speed'][j]
         if (D == 0 and w != 0) or (D > 0 and w < -tol) or (D < 0 and w > tol):
             out.append((f'self-locking powertrain: motor speed {w} at instant {j} against duty cycle in force {D}', {}))
@@ -324,14 +330,14 @@ def oracle_C13(spec, tr):
             if any(e['angular speed'][j] != 0 or e['angular acceleration'][j] != 0 for e in E):
                 out.append((f'held at instant {j} but some speed or acceleration is not zero', {}))
                 return out
-            if j > 0 and locked[j - 1] and not any(sg['a'] == j and sg['dirty'] for sg in run_segments(spec, tr)):
+            if j > 0 and locked[j - 1] and not any(sg['a'] == j and sg['dirty_state'] for sg in run_segments(spec, tr)):
                 for e in E:
                     if not near(e['angular position'][j], e['angular position'][j - 1], max(abs(e['angular position'][j]), 1e-9)):
                         out.append((f'position moved between held instants {j - 1} and {j}', {}))
                         return out
         if locked is not None and j > 0 and locked[j - 1] and not locked[j]:
-            T0, D0 = E[0]['torque'][j - 1], E[0]['pwm'][j - 1]
-            dirty_here = any(sg['a'] == j and sg['dirty'] for sg in run_segments(spec, tr))
+            T0, D0 = E[0]['torque'][j - 1], D
+            dirty_here = any(sg['a'] == j and (sg['dirty_state'] or sg['op'] is not None and any(o['op'] == 'new' for o in spec['ops'])) for sg in run_segments(spec, tr))
             if not ((T0 > 0 and D0 > 0) or (T0 < 0 and D0 < 0)) and not dirty_here:
                 out.append((f'released at instant {j} although the motor net torque {T0} does not point in the commanded direction {D0}', {}))
                 return out
@@ -524,6 +530,9 @@ def dynamics_spec(rng, ctx, *, sl_bias=0.35, schedule=True, kind=None, same_solv
         k = rng.randint(1, max(1, total // 2))
         spec['rules'] = [{'type': 'const', 'start': [0.0, 'sec'], 'dur': [k * dt, 'sec'], 'value': 1.0},
                          {'type': 'const', 'start': [(k + 1) * dt, 'sec'], 'dur': [1e6, 'sec'], 'value': 0}]
+    if kind == 'split' and spec.get('rules') is None and rng.random() < 0.35:
+        # the user assigns another duty cycle by hand between a run and its continuation (no controller)
+        ops.insert(1, {'op': 'pwm', 'v': rng.choice([0, 0.0, 1, -1, gen.dy(rng, -1, 1, 3)])})
     if kind in ('split', 'reset') and rng.random() < 0.2:
         # the user replaces the load function between two runs on the same powertrain and solver
         c0 = spec['load']['coef']
